@@ -95,11 +95,11 @@ M = [
  ("repetition-count-starts-at-zero", "src/board/position_info.rs", "            .or_insert(1);", "            .or_insert(0);", "violation", ["C17"]),
  ("repetition-board-passes-other-turn", "src/board/mod.rs", "        self.position_info.count_current_position(self.turn)", "        self.position_info.count_current_position(self.turn.opposite())", "violation", ["C17"]),
  ("benign-repetition-get-copied", "src/board/position_info.rs", "        let count = *self.position_count.get(&key).unwrap();\n        self.max_seen_position_count_stack.push(count);\n        count", "        let count = *self.position_count.get(&key).unwrap();\n        let reported = count;\n        self.max_seen_position_count_stack.push(reported);\n        reported", "ok", ["C17"]),
- ("game-forgets-history", "src/game/game.rs", "            Ok(_capture) => {\n                self.save_move(chess_move.clone());\n                Ok(())", "            Ok(_capture) => {\n                Ok(())", "violation", ["C17"]),
+ ("game-forgets-history", "src/game/game.rs", "            Ok(_capture) => {\n                self.save_move(chess_move.clone());\n                self.register_position_after_move();\n                Ok(())", "            Ok(_capture) => {\n                self.register_position_after_move();\n                Ok(())", "violation", ["C17"]),
  ("annotate-forgets-undo", "src/move_generator/mod.rs", "            ChessMoveEffect::None\n        };\n        chess_move.undo(board).unwrap();\n", "            ChessMoveEffect::None\n        };\n", "undecided", ["C06"]),   # Z3 runs into the resource limit instead of refuting: exit 2
  # ---- the Game API (C14 coordinate pairs, C15 engine move)
  ("game-find-ignores-to-square", "src/game/game.rs", "            .find(|m| m.from_square() == from_square && m.to_square() == to_square)\n            .ok_or(GameError::InvalidMove)?;\n        self.apply_chess_move(chess_move.clone())?;", "            .find(|m| m.from_square() == from_square)\n            .ok_or(GameError::InvalidMove)?;\n        self.apply_chess_move(chess_move.clone())?;", "violation", ["C14"]),
- ("game-coordinates-not-recorded", "src/game/game.rs", "            Ok(_capture) => {\n                self.save_move(chess_move.clone());\n                Ok(())", "            Ok(_capture) => {\n                Ok(())", "violation", ["C14"]),
+ ("game-coordinates-not-recorded", "src/game/game.rs", "            Ok(_capture) => {\n                self.save_move(chess_move.clone());\n                self.register_position_after_move();\n                Ok(())", "            Ok(_capture) => {\n                self.register_position_after_move();\n                Ok(())", "violation", ["C14"]),
  ("game-rejection-toggles-turn", "src/game/game.rs", "            .ok_or(GameError::InvalidMove)?;\n        self.apply_chess_move(chess_move.clone())?;\n        Ok(chess_move.clone())", "            .ok_or_else(|| GameError::InvalidMove);\n        let chess_move = match chess_move { Ok(m) => m, Err(e) => { self.board.toggle_turn(); return Err(e); } };\n        self.apply_chess_move(chess_move.clone())?;\n        Ok(chess_move.clone())", "violation", ["C14"]),
  ("game-applies-for-other-side", "src/game/game.rs", "        let turn = self.board.turn();\n        let candidates = self.move_generator.generate_moves(&mut self.board, turn);", "        let turn = self.board.turn().opposite();\n        let candidates = self.move_generator.generate_moves(&mut self.board, turn);", "violation", ["C14"]),
  ("engine-book-miss-is-error", "src/game/game.rs", "            None => self.select_alpha_beta_best_move(),", "            None => return Err(GameError::InvalidMove),", "violation", ["C15"]),
@@ -117,6 +117,10 @@ M = [
  ("benign-perft-depth-zero-guard", "src/move_generator/mod.rs", "    let mut count = candidates.len();\n\n    if depth == 0 {\n        return count;\n    }", "    let mut count = candidates.len();\n\n    if depth < 1 {\n        return count;\n    }", "ok", ["C10"]),
  ("benign-undo-put-before-pops", "src/chess_move/standard.rs", "        board.pop_halfmove_clock();\n        board.decrement_fullmove_clock();\n        board.pop_en_passant_target();\n        board.pop_castle_rights();\n        board\n            .put(\n                *from_square,\n                piece_to_move_back,\n                color_of_piece_to_move_back,\n            )\n            .unwrap();\n\n        Ok(())", "        board\n            .put(\n                *from_square,\n                piece_to_move_back,\n                color_of_piece_to_move_back,\n            )\n            .unwrap();\n        board.pop_castle_rights();\n        board.pop_en_passant_target();\n        board.decrement_fullmove_clock();\n        board.pop_halfmove_clock();\n\n        Ok(())", "ok", ["C04", "C05"]),
  ("undo-forgets-castle-rights-pop", "src/chess_move/standard.rs", "        board.pop_en_passant_target();\n        board.pop_castle_rights();\n        board\n            .put(\n                *from_square,", "        board.pop_en_passant_target();\n        board\n            .put(\n                *from_square,", "violation", ["C04"]),
+ ("game-forgets-registration", "src/game/game.rs", "                self.save_move(chess_move.clone());\n                self.register_position_after_move();\n                Ok(())", "                self.save_move(chess_move.clone());\n                Ok(())", "violation", ["C17"]),
+ ("game-registers-under-the-mover", "src/game/game.rs", "        let side_to_move = self.board.turn().opposite();\n        self.board.count_position_with_side_to_move(side_to_move);", "        let side_to_move = self.board.turn();\n        self.board.count_position_with_side_to_move(side_to_move);", "violation", ["C17"]),
+ ("engine-move-not-registered", "src/game/game.rs", "        self.save_move(best_move.clone());\n        self.register_position_after_move();\n        Ok(best_move)", "        self.save_move(best_move.clone());\n        Ok(best_move)", "violation", ["C17"]),
+ ("benign-registration-before-history", "src/game/game.rs", "                self.save_move(chess_move.clone());\n                self.register_position_after_move();\n                Ok(())", "                self.register_position_after_move();\n                self.save_move(chess_move.clone());\n                Ok(())", "ok", ["C17", "C14"]),
  # ---- search value (C08)
  ("cache-key-drops-depth", "src/alpha_beta_searcher/mod.rs", "        board.current_position_hash(),\n        depth,\n        maximizing_player,", "        board.current_position_hash(),\n        0,\n        maximizing_player,", "violation", ["C08"]),
  ("cache-key-drops-side", "src/alpha_beta_searcher/mod.rs", "        depth,\n        maximizing_player,\n        alpha,", "        depth,\n        true,\n        alpha,", "violation", ["C08"]),
